@@ -162,9 +162,9 @@ partial def pItems : P (List Item2) := do
     let r ← pItems
     pure (i :: r)
 
-def parseOp (line : String) : Option (List Item2) :=
+def parseOp (line : String) : Option (Nat × List Item2) :=
   match line.splitOn " " with
-  | "sort" :: _reps :: rest => (pItems.run rest).map (·.1)
+  | "sort" :: reps :: rest => (pItems.run rest).map (fun r => (reps.toNat?.getD 5, r.1))
   | _ => none
 
 def showKind : Kind → String
@@ -193,8 +193,9 @@ def ords : List Ord := [Ord.id, ⟨fun _ l => l.reverse⟩, ⟨fun k l => rotate
 def stepC17 (_ : Unit) (line : String) : Unit × String :=
   match parseOp line with
   | none => ((), "bad-op")
-  | some items =>
-    let rs := ords.map (fun o => showRes (Dep.all o (items.length + 1) {} items))
+  | some (reps, items) =>
+    -- as many map iteration orders as the real sorter is run times on this op (2 to 5)
+    let rs := (ords.take (max 2 reps)).map (fun o => showRes (Dep.all o (items.length + 1) {} items))
     match rs with
     | [] => ((), "bad-op")
     | r :: rest => if rest.all (· == r) then ((), r) else ((), "MODEL-NONDETERMINISTIC " ++ " | ".intercalate rs)
